@@ -256,7 +256,7 @@ IpTargets == {"t1", "a", "e.p", "l.0"}
 
 Build == \/ \E x \in Atoms : Atom(x)
          \/ \E op \in OpSet : \E v \in LitSet : BinR(op, v) \/ BinL(op, v)
-         \/ \E op \in OpSet : \E l \in {"a", "b"} : \E sd \in {"l", "r"} : BinRef(op, l, sd)
+         \/ \E op \in OpSet : \E l \in {"a", "b", "l.1"} : \E sd \in {"l", "r"} : BinRef(op, l, sd)
          \/ \E op \in UnOps : UnA(op)
          \/ \E fp \in BiForms : BiA(fp)
          \/ \E f \in CallForms : CallA(f)
